@@ -42,12 +42,13 @@ package persistence
 //@ ensures[store-read-passthrough] ret0 == ret0(Load) && ret1 == ret1(Load) && arg(Load, 1) == key
 
 //@ func (*ticket).loadSession
-//@ prop C13 C01 C02
+//@ prop C13 C01 C02 C12
 //@ ensures[loader-error-is-error] ret1(loader) != nil ==> ret1 != nil && ret0 == nil
 //@ ensures[session-only-from-authenticated-decode] ret0 != nil ==> ret1(loader) == nil && called(DecodeSessionState)
 //@     && ret1(DecodeSessionState) == nil && ret0 == ret0(DecodeSessionState) && arg(DecodeSessionState, 0) == ret0(loader)
 //@     && arg(DecodeSessionState, 1) == ret0(makeCipher) && arg(loader, 0) == t.id
 //@ ensures[error-means-no-session] ret1 != nil ==> ret0 == nil
+//@ ensures[loaded-session-carries-the-stores-lock-for-its-ticket] ret0 != nil ==> called(initLock) && ret0.Lock == ret(initLock) && arg(initLock, 0) == t.id
 
 //@ func decodeTicketFromRequest
 //@ prop C02 C09 C13
